@@ -54,6 +54,10 @@ CHECKS = {
   technique='property-based testing (Hypothesis) with validity predicates (one finite positive value per layer, inside the control range, constant for equal controls), a closed-form reference for the Guillot profile, and negative classes that must be rejected as an invalid model',
   text='Generated layer counts, pressure grids and parameters for all built-in temperature profiles (isothermal, N-point with smoothing and slope limit, array with/without pressure points, text file, layer-correlated, Guillot), including the four rejected classes; exploration level.',
   note='Guillot reference uses E2 via exp1 (not the expn call of the code) and typed constants; smoothing window 0-100 percent.'),
+ 'C17': dict(
+  technique='property-based testing (Hypothesis): metamorphic relation (row permutation leaves every public view unchanged, bit for bit), alignment oracle (values/errors/widths are injective functions of the wavelength), unit-conversion reference, and differential of the created binner against the C05 overlap-mean reference',
+  text='Generated observations (2-60 rows, 3 or 4 columns, independent widths, row permutations) loaded from arrays, text files and TauREx HDF5 files (class and function loaders); wavenumber grid, values, errors, widths, edges and the binner created from the observation are checked for order independence, alignment and units; exploration level.',
+  note='Four-column edges are centre +/- width/2 in wavelength; HDF5 sources carry rtol 1e-12 for the double width conversion.'),
 }
 
 NOT_APPLICABLE = {}
